@@ -1,6 +1,7 @@
 package engine
 
 import (
+	"bytes"
 	"encoding/json"
 	"io"
 	"strings"
@@ -192,6 +193,11 @@ func (s *socket) onOpen() {
 		case *strings.Reader:
 			r := *v
 			i = &r
+		case *bytes.Reader:
+			r := *v
+			i = &r
+		case *bytes.Buffer:
+			i = bytes.NewBuffer(v.Bytes())
 		}
 		s.sendPacket(packet.MESSAGE, i, nil, nil)
 	}
